@@ -1,4 +1,5 @@
 import Pog.Lemmas.ParserSpec
+import Pog.Props.Extract
 import Pog.Props.Resolve
 import Pog.Lemmas.Parser
 import Pog.Lemmas.ParserFaithful
@@ -50,6 +51,22 @@ import Pog.Lemmas.ParserFaithful
                                            represented, no duplicates, first-occurrence document order (no unordered container)
 -/
 -- INDEX Pog.ResolveProps: resolve_optional_iff_not_required, union_members_nodup_and_cover, dispatch_union
+/-
+  C02 through the two post-parse passes and the model-kind decision (Pog/Model/Extract.lean mirrors
+  `extract_inline_array_items`, `extract_inline_enums` (core/loader/schemas/extractor.py) and `ModelVisitor.visit_IRSchema`'s
+  detection logic; tied by vf/corr/extract.py; proved in Pog/Props/Extract.lean, claimed here):
+    extract_preserves_wire_keys            both passes leave every schema's list of property keys (the JSON wire keys) unchanged
+    extracted_enum_has_the_values          an extracted inline enum carries exactly the property's values and type, the property points at it
+    extracted_item_is_a_copy               a promoted array item equals the inline item except for its name
+    extract_postconditions_never_fire      the two RuntimeError post-conditions of the code can never be raised
+    properties_imply_dataclass / properties_never_alias / kind_total_and_exclusive / kind_decision / anonymous_is_skipped
+                                           a named schema with a property and no enum is a dataclass for EVERY combination of the other
+                                           fields (the precondition of "one dataclass field per property")
+    ✗ extract_preserves_array_nature       generation_name == "array" flips a string property to type array (counterexample + partial)
+    ✗ extract_idempotent                   a second run promotes items of promoted items (counterexample + partial); the enum half is idempotent
+    extracted_number_enum_is_alias         observation: `number` enums are extracted but rendered as plain aliases
+-/
+-- INDEX Pog.ExtractProps: extract_preserves_wire_keys, extract_preserves_array_nature_counterexample, extract_preserves_array_nature_partial, extracted_enum_has_the_values, enum_pointer, enum_entry_fields, extracted_item_is_a_copy, enum_pass_keeps_items, array_pass_keeps_fields, extract_postconditions_never_fire, reuse_branch_dead, kind_total_and_exclusive, kind_decision, properties_imply_dataclass, properties_never_alias, anonymous_is_skipped, data_wrapper_is_named_dataclass, extracted_number_enum_is_alias, extracted_string_enum_is_enum, extract_idempotent_counterexample, extract_idempotent_partial, extract_enum_pass_idempotent
 namespace Pog.C02
 open Pog Pog.Prs Pog.Trk
 
